@@ -51,11 +51,11 @@ def base_text(signature, conds, name="kb"):
     )
 
 
-def gen_base(rng, want="consistent", max_atoms=5, max_conds=7, style=None):
+def gen_base(rng, want="consistent", max_atoms=5, max_conds=7, style=None, exact_atoms=None):
     """Return (signature, conds).  want: 'consistent' | 'weakly' (weakly but not strictly
     consistent) | 'any'."""
     for _ in range(200):
-        n_atoms = rng.randint(2, max_atoms)
+        n_atoms = exact_atoms if exact_atoms else rng.randint(min(2, max_atoms), max_atoms)
         sig = ATOMS[:n_atoms]
         n_conds = rng.randint(1, max_conds)
         st = style or rng.choice(["literal", "mixed", "mixed", "compound"])
